@@ -25,6 +25,8 @@ def sweep(ctx, n, depth):
     for p in procs:
         out, err = p.communicate(timeout=3000)
         rcs.append((p.returncode, err))
+    if any(rc == 6 for rc, _ in rcs):
+        return stuck(ctx, n, depth)
     if all(rc == 4 for rc, _ in rcs):
         return None  # nothing is ever rejected for this bound: there is no continuation
     if any(rc != 0 for rc, _ in rcs):
@@ -35,6 +37,20 @@ def sweep(ctx, n, depth):
         os.remove(h)
     ctx.evaluations += M
     return out
+
+
+def stuck(ctx, n, depth):
+    """A draw of the sweep rejected 4096 consecutive words of the scattered sequence: decided by DrawTrace!StuckWhy."""
+    import json
+    f = ctx.path("stuck-%d-%d.ndjson" % (n, depth))
+    with open(f, "w") as fh:
+        fh.write(json.dumps(dict(op="stuck", n=[(n >> (15 * i)) & 32767 for i in range(3)], depth=depth, rejected=4096)) + "\n")
+    v = ctx.validate("DrawTrace", f, tag="stuck-%d-%d" % (n, depth))
+    for b in v["bad"]:
+        if b["why"].startswith("prop:"):
+            ctx.violation("bound n=%d: %s (a draw at depth %d consumed 4096 further raw words without accepting one)" % (n, b["why"][5:], depth),
+                          dict(kind="sweep-stuck", n=n, depth=depth, cmd="spgdrv sweep -n %d -depth %d" % (n, depth)))
+    return None
 
 
 def count_sweep(ctx, n, depth, why):
@@ -50,6 +66,11 @@ def count_sweep(ctx, n, depth, why):
     acc = rej = oor = 0
     for p in procs:
         out, err = p.communicate(timeout=3000)
+        if p.returncode == 6:
+            for q in procs:
+                q.kill()
+            stuck(ctx, n, depth)
+            return False
         if p.returncode == 4:
             return True
         if p.returncode != 0:
